@@ -142,33 +142,28 @@ func ruleORD2(p *Program) *RuleResult {
 	if err != nil {
 		return r.anchorFail(err)
 	}
-	calls := map[string]*ssa.Call{}
-	for _, ec := range evaluateCalls(fn) {
-		calls[strings.TrimPrefix(ec.recv, "field:")] = ec.call
-	}
-	var teq []*ssa.Call
-	var notLoads []ssa.Value
-	for _, b := range fn.Blocks {
-		for _, ins := range b.Instrs {
-			if c, ok := ins.(*ssa.Call); ok {
-				if sc := c.Common().StaticCallee(); sc != nil && sc.Name() == "TryEqual" {
-					teq = append(teq, c)
-				}
+	// the comparison: the TryEqual call(s) are answered by the call model; `Not` is a field of the node
+	runEq := func(not bool, teqResult aval) (*result, *operandEnv, int) {
+		an := newAnalyzer()
+		an.maxBlocks = 200
+		oe := newOperandEnv()
+		oe.results["field:Left"] = okTuple(sliceLen(1))
+		oe.results["field:Right"] = okTuple(sliceLen(1))
+		nteq := 0
+		oe.next = func(c *ssa.CallCommon, args []aval) (aval, bool) {
+			if sc := c.StaticCallee(); sc != nil && sc.Name() == "TryEqual" && strings.HasSuffix(fnPkgPath(sc), "/fhirpath/system") {
+				nteq++
+				return teqResult, true
 			}
-			if ld, ok := ins.(*ssa.UnOp); ok {
-				if fa, ok := ld.X.(*ssa.FieldAddr); ok && fieldName(fa) == "Not" {
-					notLoads = append(notLoads, ld)
-				}
-			}
+			return aval{}, false
 		}
+		an.callModel = oe.model()
+		res := an.analyze(fn, []aval{nodeReceiver(fn, map[string]aval{"Not": cBool(not)}), nonnil("ctx"), top})
+		return res, oe, nteq
 	}
-	if calls["Left"] == nil || calls["Right"] == nil || len(teq) != 1 || len(notLoads) == 0 {
-		r.undecided("EqualityExpression|shape", fmt.Sprintf("Left/Right Evaluate calls, exactly one TryEqual call (found %d) and the Not load", len(teq)), p.pos(fn.Pos()), "unsupported shape: `=` and `!=` must share one comparison")
+	if _, oe, nteq := runEq(false, aval{k: kTuple, tup: []aval{cBool(true), cBool(true)}}); !oe.evaluated["field:Left"] || !oe.evaluated["field:Right"] || nteq == 0 {
+		r.undecided("EqualityExpression|shape", "the operands are not both evaluated or no TryEqual comparison is reached", p.pos(fn.Pos()), "unsupported shape: `=` and `!=` must share one comparison")
 		return r
-	}
-	// operand order of the comparison: left.TryEqual(right)
-	if sideOf(teq[0].Common().Args[0], 0) != "L" || sideOf(teq[0].Common().Args[1], 0) != "R" {
-		r.note("TryEqual operands are not (left, right) in source order (symmetric comparison: informational)")
 	}
 	for _, not := range []bool{false, true} {
 		for _, c := range []struct {
@@ -176,15 +171,7 @@ func ruleORD2(p *Program) *RuleResult {
 			want    int
 		}{{true, true, 1}, {false, true, 0}, {true, false, -1}, {false, false, -1}} {
 			r.count("hypotheses", 1)
-			an := newAnalyzer()
-			an.maxBlocks = 200
-			an.pin[calls["Left"]] = okTuple(sliceLen(1))
-			an.pin[calls["Right"]] = okTuple(sliceLen(1))
-			an.pin[teq[0]] = aval{k: kTuple, tup: []aval{cBool(c.eq), cBool(c.has)}}
-			for _, nl := range notLoads {
-				an.pin[nl] = cBool(not)
-			}
-			res := an.analyze(fn, []aval{nonnil("e"), nonnil("ctx"), top})
+			res, _, _ := runEq(not, aval{k: kTuple, tup: []aval{cBool(c.eq), cBool(c.has)}})
 			want := c.want
 			if want >= 0 && not {
 				want = 1 - want
@@ -290,43 +277,6 @@ func ruleORD3(p *Program) *RuleResult {
 	if err != nil {
 		return r.anchorFail(err)
 	}
-	calls := map[string]*ssa.Call{}
-	for _, ec := range evaluateCalls(fn) {
-		calls[strings.TrimPrefix(ec.recv, "field:")] = ec.call
-	}
-	var lessLR, lessRL *ssa.Call
-	var opLoads []ssa.Value
-	for _, b := range fn.Blocks {
-		for _, ins := range b.Instrs {
-			if c, ok := ins.(*ssa.Call); ok && c.Common().IsInvoke() && c.Common().Method.Name() == "Less" {
-				recv, arg := sideOf(c.Common().Value, 0), sideOf(c.Common().Args[0], 0)
-				norm := passesNormalize(c.Common().Value) && passesNormalize(c.Common().Args[0])
-				switch {
-				case recv == "L" && arg == "R":
-					if lessLR != nil {
-						r.undecided("ComparisonExpression|dup", "two L.Less(R) calls", p.instrPos(ins), "unsupported shape")
-					}
-					lessLR = c
-				case recv == "R" && arg == "L":
-					lessRL = c
-				default:
-					r.bad("ComparisonExpression|less-operands", "a Less call whose operands are not (left,right) or (right,left): "+recv+","+arg, p.instrPos(ins), "comparison of something other than the two operands")
-				}
-				if !norm {
-					r.bad("ComparisonExpression|normalize", "a Less operand does not pass through system.Normalize", p.instrPos(ins), "implicit Integer→Decimal→Quantity / Date→DateTime promotion skipped for one direction")
-				}
-			}
-			if ld, ok := ins.(*ssa.UnOp); ok {
-				if fa, ok := ld.X.(*ssa.FieldAddr); ok && fieldName(fa) == "Op" && fa.X == ssa.Value(fn.Params[0]) {
-					opLoads = append(opLoads, ld)
-				}
-			}
-		}
-	}
-	if calls["Left"] == nil || calls["Right"] == nil || lessLR == nil || lessRL == nil || len(opLoads) == 0 {
-		r.undecided("ComparisonExpression|shape", "operand Evaluate calls, L.Less(R), R.Less(L) and the Op load", p.pos(fn.Pos()), "unsupported shape")
-		return r
-	}
 	bv := func(b bool) aval { return aval{k: kConst, c: constant.MakeBool(b), dyn: st.Boolean} }
 	type row struct {
 		op   string
@@ -338,31 +288,85 @@ func ruleORD3(p *Program) *RuleResult {
 		{"<=", func(lt, gt bool) bool { return !gt }},
 		{">=", func(lt, gt bool) bool { return !lt }},
 	}
+	// operands are singletons whose items carry their side; From / Normalize keep the side
+	// (Normalize marks the value); every Less invoke is answered by the sides of its operands
+	sideItem := func(side string) aval { return nonnil("side:" + side) }
+	sideOfVal := func(v aval) (string, bool) {
+		side, norm := "", false
+		for _, n := range v.notes {
+			if strings.HasPrefix(n, "side:") {
+				side = strings.TrimPrefix(n, "side:")
+			}
+			if n == "normalized" {
+				norm = true
+			}
+		}
+		return side, norm
+	}
+	type lessObs struct {
+		badOperands []string
+		notNormal   bool
+		lr, rl      int
+	}
+	var obs lessObs
 	run := func(op string, lr, rl aval) *result {
 		an := newAnalyzer()
 		an.maxBlocks = 250
-		an.pin[calls["Left"]] = okTuple(sliceLen(1))
-		an.pin[calls["Right"]] = okTuple(sliceLen(1))
-		an.pin[lessLR] = lr
-		an.pin[lessRL] = rl
-		for _, ol := range opLoads {
-			an.pin[ol] = cStr(op)
-		}
-		// From / Normalize are total on the pinned operands: summarise as success
-		an.callModel = func(c *ssa.CallCommon, args []aval) (aval, bool) {
-			if sc := c.StaticCallee(); sc != nil {
+		obs = lessObs{}
+		oe := newOperandEnv()
+		oe.results["field:Left"] = okTuple(coll(sideItem("L")))
+		oe.results["field:Right"] = okTuple(coll(sideItem("R")))
+		oe.next = func(c *ssa.CallCommon, args []aval) (aval, bool) {
+			if c.IsInvoke() && c.Method.Name() == "Less" && len(args) == 2 {
+				rs, rn := sideOfVal(args[0])
+				as, an2 := sideOfVal(args[1])
+				if !rn || !an2 {
+					obs.notNormal = true
+				}
+				switch {
+				case rs == "L" && as == "R":
+					obs.lr++
+					return lr, true
+				case rs == "R" && as == "L":
+					obs.rl++
+					return rl, true
+				}
+				obs.badOperands = append(obs.badOperands, rs+","+as)
+				return aval{k: kTuple, tup: []aval{top, top}}, true
+			}
+			if sc := c.StaticCallee(); sc != nil && strings.HasSuffix(fnPkgPath(sc), "/fhirpath/system") && len(args) > 0 {
 				switch sc.Name() {
 				case "From":
-					if strings.HasSuffix(fnPkgPath(sc), "/fhirpath/system") {
-						return okTuple(nonnil("sys")), true
+					if s, _ := sideOfVal(args[0]); s != "" {
+						return okTuple(args[0]), true
 					}
 				case "Normalize":
-					return nonnil("sys"), true
+					if s, _ := sideOfVal(args[0]); s != "" {
+						v := args[0]
+						v.notes = unionNotes(v.notes, []string{"normalized"})
+						return v, true
+					}
 				}
 			}
 			return aval{}, false
 		}
-		return an.analyze(fn, []aval{nonnil("e"), nonnil("ctx"), top})
+		an.callModel = oe.model()
+		return an.analyze(fn, []aval{nodeReceiver(fn, map[string]aval{"Op": cStr(op)}), nonnil("ctx"), top})
+	}
+	{
+		f := aval{k: kTuple, tup: []aval{bv(false), {k: kNil}}}
+		run("<", f, f)
+		switch {
+		case len(obs.badOperands) > 0:
+			r.bad("ComparisonExpression|less-operands", "a Less call whose operands are not (left,right) or (right,left): "+strings.Join(obs.badOperands, " "), p.pos(fn.Pos()), "comparison of something other than the two operands")
+		case obs.notNormal:
+			r.bad("ComparisonExpression|normalize", "a Less operand does not pass through system.Normalize", p.pos(fn.Pos()), "implicit Integer→Decimal→Quantity / Date→DateTime promotion skipped for one direction")
+		case obs.lr == 0 || obs.rl == 0:
+			r.undecided("ComparisonExpression|shape", "L.Less(R) and R.Less(L) are not both reached on singleton operands", p.pos(fn.Pos()), "unsupported shape")
+			return r
+		default:
+			r.ok("ComparisonExpression|less-operands", "the comparison calls are L.Less(R) and R.Less(L) on operands that passed through system.Normalize", p.pos(fn.Pos()), "operand sides and normalisation tracked through From/Normalize by tag", true)
+		}
 	}
 	for _, rw := range rows {
 		for _, lt := range []bool{false, true} {
